@@ -13,6 +13,7 @@ import (
 	"os/exec"
 	"path/filepath"
 	"sort"
+	"strconv"
 	"strings"
 	"sync"
 	"sync/atomic"
@@ -448,11 +449,19 @@ func realMain() {
 		kit.Harness("mkdtemp: %v", err)
 	}
 	defer os.RemoveAll(root)
+	var replayCase scase
+	stuckV := func(c scase) kit.V {
+		return kit.V{Key: violKey("no-return", c), What: fmt.Sprintf("script [%s] (config %+v, cli=%v): the run does not return", strings.Join(c.Lines, " ; "), c.Cfg, c.CLI), Case: c}
+	}
+	r.Stuck = func([]byte) kit.V { return stuckV(replayCase) }
 	r.Replayer = func(raw json.RawMessage) []kit.V {
 		var c scase
 		if err := json.Unmarshal(raw, &c); err != nil {
 			kit.Harness("bad case: %v", err)
 		}
+		replayCase = c
+		r.Watch(127, []byte("replay"))
+		defer r.WatchDone(127)
 		class, what := check(root, c, nil)
 		if class == "" {
 			return nil
@@ -557,16 +566,29 @@ func realMain() {
 	st := &stats{}
 	var next int64 = -1
 	var wg sync.WaitGroup
+	// a script whose run never returns (an endless loop in the interpreter) is
+	// reported by the watchdog; the watched input is the index of the case
+	r.Stuck = func(in []byte) kit.V {
+		c := replayCase
+		if i, err := strconv.Atoi(string(in)); err == nil && i >= 0 && i < len(cases) {
+			c = cases[i]
+		}
+		return stuckV(c)
+	}
 	for w := 0; w < r.Workers(); w++ {
 		wg.Add(1)
 		go func() {
 			defer wg.Done()
+			var wb []byte
 			for {
 				i := int(atomic.AddInt64(&next, 1))
 				if i >= len(cases) || r.Expired() {
+					r.WatchDone(w)
 					return
 				}
 				c := cases[i]
+				wb = strconv.AppendInt(wb[:0], int64(i), 10)
+				r.Watch(w, wb)
 				class, what := check(root, c, st)
 				if class != "" {
 					r.Violation(violKey(class, c), fmt.Sprintf("script [%s] (config %+v, cli=%v): %s", strings.Join(c.Lines, " ; "), c.Cfg, c.CLI, what), c)
